@@ -149,6 +149,14 @@ class PotAdapter(Adapter):
 
     def step(self, w, l):
         act, p, c = l['act'], w['pot'], self.c
+        if act in ('SetSigma', 'SetCut') and getattr(p, 'sigma', None) is not None:
+            # the object has been evaluated with its present parameters before they change (PCalculate leaves the abstract
+            # state unchanged, so no walker orders it before a change by itself): Calculate; SetSigma; Calculate
+            try:
+                with np.errstate(all='ignore'):
+                    p.calculate(self.r)
+            except Exception:      # noqa
+                pass
         if act == 'SetSigma':
             p.sigma = c.dist(l['sigma2'])
             return {}
